@@ -19,6 +19,8 @@ THEOREMS = [
     "C20.restore_crash_no_fs_change",
     "C20.restore_after_crash_then_continue",
     "C20.reopen_same_ms_aliases_counterexample",
+    "C20.restore_reproduces_needs_encodable_counterexample",
+    "C20.numbered_point_needs_encodable_counterexample",
 ]
 LEAN_TARGETS = ["RreModel.C20.Theorems", "RreModel.C20.Theorems2"]
 N = {"quick": 6000, "thorough": 60000}
@@ -46,6 +48,20 @@ RULE = ("cases = corpus + every sequence of length <=3 (thorough: <=4) over the 
         "later and puts / checkpoints / restores ids of both lives. The model predicts, from Model.checkpointSteps / restoreSteps "
         "(the list the theorems quantify over), whether the child dies, the label of the fatal point, the directory, every restore "
         "outcome and the whole second life; Spec.killOk / runOk2 judge the implementation's observations. "
+        "VALUES: the value table has 27 entries - 0..9 ordinary; 10..19 edge values JSON still carries exactly (-0.0, f64::MAX, "
+        "5e-324, i64::MIN, a 2.8 kB string with 2- and 4-byte characters, a string of control characters / U+2028 / U+FEFF / literal "
+        "`\\ud800`, Value::Expression, an object with the keys \"\", `a.b`, `a/b\\0`, `Number` and a 9-level nested member, and two "
+        "floats - 0.9999999999999999 = 0.1 added ten times, 434.29198722896365 - that serde_json reads back exactly only with its "
+        "float_roundtrip feature, fix F-C20c); 20..26 values whose JSON text does NOT read back (NaN, +inf, -inf, an array / an "
+        "object / a 3-level nest holding one, a value nested 70 levels = beyond the parser's recursion limit; Model.lossyVal). "
+        "One draw in five of every random family comes from 10..26 (the long ones not where a crash analysis follows) + every "
+        "sequence of length <=3 over {put NaN, put [1,-inf] under another key, update to +inf, delete, put ordinary, checkpoint, "
+        "restore #0, restore #1} after an ordinary put, closed by a crash analysis + a value sweep (every table entry stored by "
+        "put / put_with_ttl / update / process() next to two ordinary keys, checkpointed, the store edited, the checkpoint restored, "
+        "a second checkpoint restored; two exotic values in one checkpoint; real kill at points 3, 4, 5 and past the end with the "
+        "value in the snapshot). A checkpoint that captured a value that does not read back must restore as an ERROR with the live "
+        "state untouched (Codec.Lawful.lossy_fails; restore_reproduces' second branch) - an Ok with the other keys only is "
+        "`restore_reproduces` / `interrupted_partial_state`. "
         "Every case runs on the real StateStore in a private directory with the injected clock (several "
         "checkpoints share one millisecond unless the clock is advanced) and on the Lean model; after every call get/keys/len, "
         "list_checkpoints and the parsed files under the backend path are diffed, and Spec.runOk is evaluated on the "
@@ -57,8 +73,10 @@ RULE = ("cases = corpus + every sequence of length <=3 (thorough: <=4) over the 
 TRUSTED = [
     "Lean 4.33 kernel; axioms of every property theorem within {propext, Classical.choice, Quot.sound} (audited each run)",
     "hand-written model RreModel/C20/Model.lean tied to src/streaming/state.rs by the correspondence check only (differential testing)",
-    "serde_json contract Codec.Lawful (parse(serialize m) = m; a strict prefix of serialize m does not parse) is an ASSUMPTION of the "
-    "theorems; it is exercised on the real serde_json at every truncation point of every crash analysis, and shown satisfiable in Lean (natCodec)",
+    "serde_json contract Codec.Lawful (parse(serialize m) = m when every value of m is `enc`odable; parse(serialize m) fails as a whole "
+    "when some value is not - NaN, +-inf, nesting beyond the recursion limit -; a strict prefix of serialize m does not parse) is an "
+    "ASSUMPTION of the theorems; it is exercised on the real serde_json at every truncation point of every crash analysis and on every "
+    "entry of the value table, and shown satisfiable in Lean (natCodec)",
     "file-system steps (create_dir_all, File::create, each write of a prefix, unlink, rmdir) are atomic and succeed; a crash leaves a prefix "
     "of the code's step sequence (no reordering by the OS, no torn directory entries, the page cache survives: the PROCESS is killed, not "
     "the machine). The numbered crash points (one before the first and one after every effect of checkpoint / restore) are produced by "
@@ -71,7 +89,12 @@ TRUSTED = [
 ASSUMPTIONS = [
     "timestamps are u64 milliseconds modelled as Nat (no overflow of created_at + ttl)",
     "the backend directory is private to one StateStore (no other writer) and starts empty",
-    "HashMap<String, StateEntry> = association list with distinct keys (invariant proved); value identity = index into a fixed table of Values",
+    "HashMap<String, StateEntry> = association list with distinct keys (invariant proved); value identity = index into a fixed table of Values "
+    "(numbers compared by bit pattern)",
+    "restore_reproduces / numbered_point_complete_from_write / restore_after_crash_then_continue carry the hypothesis `encodable` (every "
+    "captured value's JSON text reads back); without it the checkpoint - which `checkpoint` takes without complaint - restores as an "
+    "error and nothing changes (restore_reproduces second branch, ..._needs_encodable_counterexample): the property's first sentence "
+    "is NOT met for a store holding NaN / +-inf / a value nested > 63 levels, its last sentence (complete state or error) is",
     "restore after a crash is performed by any store that sees the directory (the theorem quantifies over the restoring store)",
     "a store reopened on a directory another store left: restore_after_crash_then_continue assumes the clock reads a LATER millisecond than "
     "every surviving directory's (checkpoint_seq restarts at 0 and the directory is not consulted: reopened within the same millisecond "
